@@ -9,7 +9,9 @@ from .. import impl, netstub
 from ..harness import Prop, Result
 from ..gen import worlds as GW
 
-DOCS = ["http://ex.test/d0.json", "http://ex.test/D0.json", "http://ex.test/dir/d2.json", "http://ex.test/d1.json"]
+DOCS = ["http://ex.test/d0.json", "http://ex.test/D0.json", "http://ex.test/dir/d2.json", "http://ex.test/d1.json",
+        "http://ex.test/folder/"]          # a URI may end in a slash; it is not the URI without it
+STORED = ["http://ex.test/stored.json", "http://ex.test/stored/"]
 META = {3: "http://json-schema.org/draft-03/schema", 4: "http://json-schema.org/draft-04/schema",
         6: "http://json-schema.org/draft-06/schema", 7: "http://json-schema.org/draft-07/schema"}
 META_FRAGS = ["", "#", "#/properties/type", "#/definitions/positiveInteger", "#/definitions/nonNegativeInteger",
@@ -30,22 +32,22 @@ def cases(draw):
     d = draw(st.sampled_from(impl.DRAFTS))
     n = draw(st.integers(1, 4))
     docs, behaviour = {}, {}
-    for u in DOCS[:n]:
-        docs[u] = {"definitions": {"a": draw(leaf), "b": draw(leaf), "x/y": draw(leaf)}}
+    for u in (DOCS[:n] if draw(st.integers(0, 3)) else [DOCS[4]] + DOCS[:n - 1]):
+        docs[u] = {"definitions": {"a": draw(leaf), "b": draw(leaf), "x/y": draw(leaf), "": draw(leaf)}}
         docs[u].update(draw(leaf))
         if draw(st.integers(0, 4)) == 0:
             # degenerate but legal documents: the empty schema, and (draft 6+) the boolean schemas
             docs[u] = draw(st.sampled_from([{}, {}, True, False] if d >= 6 else [{}]))
         behaviour[u] = {"mode": draw(st.sampled_from(["ok", "ok", "fail-once", "fail-always"])),
                         "exc": draw(st.sampled_from(sorted(EXC)))}
-    store_doc = draw(st.booleans())
+    store_doc = draw(st.sampled_from([None, None, STORED[0], STORED[0], STORED[1]]))
     if store_doc:
-        docs["http://ex.test/stored.json"] = {"definitions": {"a": draw(leaf)}}
+        docs[store_doc] = {"definitions": {"a": draw(leaf), "": draw(leaf)}}
     urls = sorted(docs)
     spellings = []
     for u in urls:
         spellings += [u, u + "#", u + "#/definitions/a", u + "#/definitions/b", u + "#/definitions/x~1y",
-                      u + "#/definitions/x%7E1y", u + "#/definitions/nope"]
+                      u + "#/definitions/x%7E1y", u + "#/definitions/nope", u + "#/definitions/"]
     schemas = []
     for _ in range(draw(st.integers(1, 3))):
         refs = draw(st.lists(st.sampled_from(spellings), min_size=1, max_size=4))
@@ -63,12 +65,17 @@ def cases(draw):
         st.lists(GW.inst_scalar, max_size=3), GW.inst_scalar), min_size=2, max_size=4))
     steps = []
     for _ in range(draw(st.integers(2, 12))):
-        if draw(st.integers(0, 3)) == 0:
+        k = draw(st.integers(0, 7))
+        if k == 7:
+            # a direct retrieval (pre-warming / refreshing the resolver), documented to record the document when
+            # caching is on
+            steps.append(["remote", draw(st.sampled_from(sorted(behaviour)))])
+        elif k < 2:
             pool = spellings + [META[dd] + f for dd in impl.DRAFTS for f in ("", "#", "#/properties/type")]
             steps.append(["resolve", draw(st.sampled_from(pool))])
         else:
             steps.append(["validate", draw(st.integers(0, 2)), draw(st.integers(0, 3))])
-    return {"draft": d, "docs": docs, "behaviour": behaviour, "stored": ["http://ex.test/stored.json"] if store_doc else [],
+    return {"draft": d, "docs": docs, "behaviour": behaviour, "stored": [store_doc] if store_doc else [],
             "stored_hash": draw(st.booleans()), "schemas": schemas, "instances": insts, "steps": steps}
 
 
@@ -134,7 +141,7 @@ class C15(Prop):
             "first call then succeeds, always fails} x exception type {OSError, ValueError, KeyError, custom}, an "
             "optional store document, 1-3 schemas referring to them through several spellings (no fragment, '#', "
             "pointer fragments, percent-encoded, unresolvable pointer) and to the bundled metaschemas, and a history "
-            "of 2-12 steps (validate instance i with schema j | resolver.resolve(url)).  Every step is applied in "
+            "of 2-12 steps (validate instance i with schema j | resolver.resolve(url) | resolver.resolve_remote(uri)); one document URI ends in '/'.  Every step is applied in "
             "lock-step to 7 resolvers per schema: cache_remote on/off x {default lru caches, pass-through caches, "
             "lru_cache(1) caches} and one built with no cache arguments at all (documented default: caching on).  Oracle: with a scripted failure model, results are identical across members "
             "sharing the same failure history; cache_remote=True: at most one successful fetch per document per "
@@ -201,6 +208,14 @@ class C15(Prop):
             assert all(b["mode"] in ("ok", "fail-once", "fail-always") and b["exc"] in EXC
                        for b in case["behaviour"].values())
             assert all(u in case["docs"] for u in case["behaviour"]) and all(u in case["docs"] for u in case["stored"])
+            for sc in schemas:
+                for sub in list(sc["properties"].values()) + ([sc["items"]] if "items" in sc else []):
+                    assert sub["$ref"].startswith("#/definitions/m") or sub["$ref"].split("#")[0] in case["docs"]
+            for st_ in case["steps"]:
+                if st_[0] == "remote":
+                    assert st_[1] in case["behaviour"] and st_[1] not in case["stored"]
+                if st_[0] == "resolve":
+                    assert st_[1].split("#")[0] in case["docs"] or "json-schema.org" in st_[1]
         except Exception:
             res.excluded = "malformed"
             return res
@@ -222,6 +237,23 @@ class C15(Prop):
                     elif step[0] == "resolve":
                         url, sub = m["resolver"].resolve(step[1])
                         out = ("ok", url, impl.cj(sub))
+                    elif step[0] == "remote":
+                        try:
+                            got_doc = m["resolver"].resolve_remote(step[1])
+                        except Exception as e:      # a direct retrieval hands the handler's own failure on
+                            if not any(c[1] != "ok" for c in m["handler"].calls[before:]):
+                                raise
+                            out = ("retrieval-failed",)
+                        else:
+                            out = ("ok", impl.cj(got_doc))
+                            if out[1] != impl.cj(case["docs"][step[1]]):
+                                res.fail(("resolve_remote-returns-another-document", name), "%s -> %s" % (step[1], out[1][:200]))
+                                return res
+                            if cr and (step[1] not in m["resolver"].store or impl.cj(m["resolver"].store[step[1]]) != out[1]):
+                                res.fail(("resolve_remote-does-not-record-the-document", name),
+                                         "after resolve_remote(%r) with caching on the store has %s" % (
+                                             step[1], "nothing" if step[1] not in m["resolver"].store else "another document"))
+                                return res
                     else:
                         res.excluded = "malformed-step"
                         return res
@@ -242,6 +274,10 @@ class C15(Prop):
                     return res
                 new = m["handler"].calls[before:]
                 failed_now = any(c[1] != "ok" for c in new)
+                if any(c[1] == "unknown" for c in new):
+                    res.fail(("handler-asked-for-a-uri-nothing-names", name), "step %d %r: handler called with %r" % (
+                        n, step, [c[0] for c in new if c[1] == "unknown"][:3]))
+                    return res
                 if step[0] == "resolve":
                     want = self.model_resolve(case, m, step[1], before)
                     if want is not None and want != out:
@@ -254,17 +290,18 @@ class C15(Prop):
                     res.labels.append("handler-failure")
                     if out[0] != "RefResolutionError" and step[0] == "resolve":
                         res.fail(("handler-failure-swallowed", name), "step %d %r -> %r" % (n, step, str(out)[:100]))
-                # (2) frugality with caching on
-                if cr:
-                    oks = {}
-                    for u, o in m["handler"].calls:
-                        if o == "ok":
-                            oks[u] = oks.get(u, 0) + 1
-                    for u, k in oks.items():
-                        if k > 1:
-                            res.fail(("fetched-more-than-once", name), "document %s fetched %d times successfully; "
-                                     "history %r" % (u, k, case["steps"][:n + 1]))
+                # (2) frugality with caching on: once a document has been retrieved (by a reference or by a direct
+                # retrieval), no reference makes the handler run for it again; only direct retrievals may repeat
+                if cr and step[0] != "remote":
+                    had = set(u for u, o in m["handler"].calls[:before] if o == "ok")
+                    seen_now = set()
+                    for u, o in new:
+                        if o == "ok" and (u in had or u in seen_now):
+                            res.fail(("fetched-more-than-once", name), "document %s fetched again although already "
+                                     "retrieved; history %r" % (u, case["steps"][:n + 1]))
                             return res
+                        if o == "ok":
+                            seen_now.add(u)
                 # (3) store untouched with caching off
                 if not cr and set(m["resolver"].store) != m["store0"]:
                     res.fail(("store-grows-with-cache-off", name), "new keys %r" % sorted(
